@@ -23,6 +23,8 @@ MC = {
     "mini33": ("mc/MC_micro.tla", "mc/MC_mini33.cfg", 8, 3000),      # 3 turns
     "mini43q": ("mc/MC_micro.tla", "mc/MC_mini43q.cfg", 6, 900),     # 4x3 + trap, 2 turns
     "mini44": ("mc/MC_micro.tla", "mc/MC_mini44.cfg", 6, 1800),      # 4x4 + trap, 2 turns
+    "sym33": ("mc/MC_sym.tla", "mc/MC_sym33.cfg", 4, 600),          # spec commutes with the symmetries, 3x3
+    "sym44": ("mc/MC_sym.tla", "mc/MC_sym44.cfg", 4, 600),          # 4x4 with four traps, one turn
     "hash33": ("mc/MC_hash.tla", "mc/MC_hash33.cfg", 4, 600),        # feature-set hash carried along, 3x3
     "hashsetup": ("mc/MC_hash.tla", "mc/MC_hashsetup.cfg", 4, 900),  # all setups of a 2x5 board + first turn
 }
@@ -411,7 +413,52 @@ def _write_replay(pid, seed, tag, recs):
     return dst
 
 
+def c11(pid, tier, seed, workdir):
+    bindir = build_harness("release")
+    mcs = []
+    with cf.ThreadPoolExecutor(max_workers=2) as ex:
+        futs = [ex.submit(tlc_mc, *MC[name][:2], workers=MC[name][2], timeout=MC[name][3], name=name) for name in ("sym33", "sym44")]
+        shards = [("twins", 3000)] * 10 if tier == "quick" else [("twins", 10000)] * 42
+        results, paths = run_shards(pid, bindir, shards, seed, tier, workdir, cfg="ProbeHash.cfg", module="TwinTrace.tla", binary="twins")
+        for f in futs:
+            mcs.append(expect_mc_ok(f.result()))
+    seen = set()
+    total = 0
+    games = 0
+    sample = None
+    import hashlib
+    for p in paths:
+        with open(p, encoding="utf-8") as f:
+            for line in f:
+                e = json.loads(line)
+                total += 1
+                if e["ev"] == "reset":
+                    games += 1
+                o = e["v"][0]
+                if o["pp"][0] != 0 or o["off"] != o["norep"] or any(o["pv"]) or o["term"] != 0:
+                    seen.add(hashlib.blake2b(json.dumps([o["b"], o["s"], o["st"], o["pp"], e["a"]]).encode(), digest_size=12).digest())
+                    if sample is None:
+                        sample = {"a": e["a"], "base": {k: o[k] for k in ("s", "st", "pp", "off", "norep", "term")},
+                                  "mirror": {k: e["v"][1][k] for k in ("s", "st", "pp", "off", "norep", "term")}}
+    withheld = sum((r.get("counts") or [0, 0])[0] for r in results)
+    captures = sum((r.get("counts") or [0, 0])[1] for r in results)
+    cov = {
+        "states": sum(m["distinct"] for m in mcs), "transitions": sum(m["generated"] for m in mcs),
+        "traces_validated_against_impl": games, "events_validated": total, "evaluations": 4 * total,
+        "distinct_nontrivial": len(seen),
+        "rule": "each event = the observations of 4 engine instances playing a game and its mirror / colour-swap / both images in lock-step; judged only with the maps of "
+                "ArimaaSym.tla; non-trivial = base state with a push/pull status, a withheld action, a capturing action or a result; distinct by (board, side, step, status, action). "
+                "S: TLC checks on every reachable state of 3x3 and 4x4 models that the specification itself commutes with the maps",
+        "samples": [sample] if sample else [{"note": "no non-trivial event"}],
+        "category_counts": {"events with a withheld action": withheld, "events with a capturing action": captures},
+        "spec_models": [{"model": m["name"], "distinct_states": m["distinct"], "seconds": m["seconds"]} for m in mcs],
+        "exhaustive": False,
+    }
+    return cov, TRUSTED, []
+
+
 PROPS = {}
+PROPS["C11"] = c11
 PROPS["C20"] = c20
 PROPS["C16"] = c16
 PROPS["C17"] = c17
@@ -422,7 +469,8 @@ PROPS["C15"] = c15
 
 PROBE_MODULES = {"C16": "NotationTrace.tla", "C17": "HashTrace.tla", "C20": "DropTrace.tla"}
 PROBE_REPLAY_HINT = {"C15": "DiagramTrace.tla"}
-PROBE_CFG = {"C17": "ProbeHash.cfg"}
+PROBE_MODULES["C11"] = "TwinTrace.tla"
+PROBE_CFG = {"C17": "ProbeHash.cfg", "C11": "ProbeHash.cfg"}
 
 
 def replay(pid, path):
